@@ -31,6 +31,7 @@ typedef struct {
 typedef enum {
     M_CTX_IDLE,
     M_CTX_LOOPING,
+    M_CTX_ZOMBIE,                           // Being deregistered
 } m_ctx_states;
 
 typedef struct {
